@@ -61,7 +61,11 @@ def opMerkle (args : List String) (impl : String) : Verdict :=
             | none, some w =>
               if implOut ≠ "root=" ++ hexOf w then some ("root of the batch is not the hash of the abstract tree") else none
             | none, none => none
-          ({ s with tree := t, rooted := true, leaves := if s.rooted then none else s.leaves, outs := out :: s.outs, specDiff := sd,
+          let l1r := match s.l1, want with
+            | some e, _ => some e
+            | none, some _ => if implOut = "root=panic" then some "compute_root panicked on a non-empty batch" else none
+            | none, none => none
+          ({ s with tree := t, rooted := true, leaves := if s.rooted then none else s.leaves, outs := out :: s.outs, specDiff := sd, l1 := l1r,
                     specRoot := want, specPaths := [], implRoot := some (implOut.drop 5).toString, implPaths := [] }, io)
         | _ => ({ s with stop := true, outs := "root=panic" :: s.outs }, io)
       | ["paths", i] =>
@@ -86,7 +90,13 @@ def opMerkle (args : List String) (impl : String) : Verdict :=
         let memo := match want with
           | some w => if (s.specPaths.lookup i).isSome then s.specPaths else (i, w) :: s.specPaths.take 3
           | none => s.specPaths
-        ({ s with outs := out :: s.outs, specDiff := sd, specPaths := memo,
+        -- L1 (totality/completeness): a path must be issued for every position of a rooted non-empty batch
+        let l1 := match s.l1, want with
+          | some e, _ => some e
+          | none, some _ => if implOut = "paths=panic" then
+              some ("get_paths panicked for in-range position " ++ toString i ++ " of a signed batch") else none
+          | none, none => none
+        ({ s with outs := out :: s.outs, specDiff := sd, specPaths := memo, l1 := l1,
                   implPaths := (i, (implOut.drop 6).toString) :: s.implPaths.take 3 }, io)
       | ["verify", i, dh, ph] =>
         let implOut := io.headD "?"
